@@ -76,21 +76,12 @@ def nontrivial(script):
 
 
 def project(script, i, o):
-    """All length and checksum fields of the reply, by value."""
+    """All length fields of the reply by value; TTL / hop limit / window by predicate; every checksum as 'valid'
+    (recomputed here, independently of the extracted monitor)."""
     if o.kind != "R":
         return (o.kind,)
-    p = net.parse_frame(o.reply)
-    if p is None:
+    n = net.norm_frame(o.reply)
+    if n[0] == "raw":
         return ("R", "unparseable")
-    t = ("R", len(o.reply), p.ety)
-    if p.ipver == 4:
-        t += (p.l3[0], p.total, p.l3[6:8], p.ttl >= 1, p.l3[10:12])
-    elif p.ipver == 6:
-        t += (p.l3[0] >> 4, p.plen, p.hlim >= 1, p.hlim == 255)
-    if p.proto == 6 and p.app is not None:
-        t += (p.doff, p.cks, p.win != 0)
-    elif p.proto == 17 and p.app is not None:
-        t += (p.ulen, p.cks)
-    elif p.proto in (1, 58) and p.l4 is not None and len(p.l4) >= 4:
-        t += (p.l4[2:4],)
-    return t
+    # drop the payload bytes: C04 is about framing
+    return ("R", len(o.reply)) + tuple(x if not isinstance(x, (bytes, bytearray)) or len(x) <= 16 else len(x) for x in n)
